@@ -2,8 +2,11 @@ import PfModel.DriverVal
 import PfModel.Model.PipeCache
 import PfModel.Model.PipeCacheFail
 import PfModel.Model.PipeCacheLRU
+import PfModel.Model.PipeCacheMapHist
+import PfModel.Model.PipeCacheStable
 /-! Driver for C09 (`pipe.cached`: a cached pipeline and its uncached twin through a history; `map.elems`: the element
-    computations of a map run through the shared cache). -/
+    computations of a map run through the shared cache; `map.hist`: successive map runs on one pipeline object through the ONE
+    cache, `runRuns` — the object of the `C09_map_history_*` theorems). -/
 open Lean PF PF.Drv PF.Pipe PF.PipeCache
 
 def getFunc (j : Json) : R Func := do
@@ -45,10 +48,7 @@ def putU (r : Option (Except Err Outcome)) : Json :=
   | some (.error e) => putErr e
   | some (.ok o) => jObj [("value", putVal o.value), ("full", putKw o.full), ("calls", jList jStr o.calls)]
 
-/-- unique function names (`WFp.names`, hypothesis of the round-2 theorems) -/
-def uniqueNamesB (fs : List Func) : Bool :=
-  let ns := fs.map (·.name)
-  ns.eraseDups.length == ns.length
+-- `uniqueNamesB`, `stableB`: `Model/PipeCacheStable.lean` (`C09_stable_wf`, `C09_stable_wfp`: the flag implies `WF` and `WFp`)
 
 /-- `histC` (round 1: stops at the first failing call) is a prefix of `histF` (continues with the cache the failure left) -/
 def prefixOk (rc rf : List (Option (Except Err (COutcome String (List (K × Val)))))) : Bool :=
@@ -106,7 +106,7 @@ def handle (m : String) (a : Json) : R Json := do
     return jObj [("steps", jList putCF rf), ("twin", jList putU ru),
                  ("histf_ok", jBool (rf.length == rc.length && (rf.zip rc).all fun (a, b) => (putC a.1).compress == (putC b).compress)),
                  ("resident", jList putKey (lastCache.map (·.1))),
-                 ("stable", jBool (st.all fun fs => rankedB fs && uniqueOutB fs && consistentDefaultsB encVal fs && uniqueNamesB fs)),
+                 ("stable", jBool (st.all (stableB encVal))),
                  ("prefix_ok", jBool (prefixOk rc0 rc)),
                  ("roots_ok", jBool (st.all rootsAgreeB))]
   | "map.elems" =>
@@ -116,6 +116,20 @@ def handle (m : String) (a : Json) : R Json := do
       return elemOfCall (fun _ => outs) ({ name := n, args := kw } : PF.Map.Call)) a "elems"
     let (rs, c) := runElems (simplePolicy String) encVal [] elems
     return jObj [("results", jList (fun (r : Val × Bool) => jArr [putVal r.1, jBool r.2]) rs), ("resident", jNat c.length)]
+  | "map.hist" =>
+    -- {"runs": [[{"name": f, "outs": [...], "kwargs": kw}]]}: the element calls of successive map runs on ONE pipeline object, every
+    -- run in the order its calls reach the cache; the answer says for every element its value and whether it executed
+    let getElem : Json → R Elem := fun j => do
+      let n ← strF j "name"; let outs ← listF asStr j "outs"; let kw ← getKw (← fld j "kwargs")
+      return elemOfCall (fun _ => outs) ({ name := n, args := kw } : PF.Map.Call)
+    let runs ← listF (asList getElem) a "runs"
+    let (rs, c) := runRuns (simplePolicy String) encVal [] runs
+    let flags := rs.map (·.map (·.2))
+    return jObj [("runs", jList (jList fun (r : Val × Bool) => jArr [putVal r.1, jBool r.2]) rs), ("resident", jNat c.length),
+                 -- `C09_map_history_executes_first_occurrences`, evaluated: the flags are the first occurrences of the keys
+                 ("flags_ok", jBool (flags == firstOccRuns [] (runs.map (·.map (elemKey encVal))))),
+                 -- `C09_map_history_transparent`, evaluated: every element got the value of its own call (fails iff two distinct calls share a key)
+                 ("own_values", jBool ((rs.map (·.map fun r => encVal r.1)) == runs.map (·.map fun e => encVal e.value)))]
   | _ => .error s!"unknown entry {m}"
 
 def main : IO Unit := loop handle
